@@ -20,7 +20,7 @@ class Required(Validator):
             # Properties which declare a default may be omitted, however
             # their requirement was declared.
             defaulted = [
-                prop.source or name
+                name if prop.source is None else prop.source
                 for name, prop in properties.items()
                 if not isinstance(prop.element.default, NotPassed)
             ]
